@@ -1,0 +1,5 @@
+//go:build !verif
+
+package scorch
+
+func verifPoint(string) {}
